@@ -307,3 +307,76 @@ def rule_viewarg(repo, rid, modules, exempt=('lview', 'view', 'view_as'), floor=
     if len(view_of_param(fx)) != 1:
         raise AnalysisError('%s: fixture no longer classified' % rid)
     return res
+
+
+# ------------------------------------------------------------------------------------------------ regime-wise gather must return by scatter
+def regrouped_rows(fnode):
+    """[(cat call, names)]: a row-wise concatenation (torch.cat / stack along the default or 0 axis) of pieces that were GATHERED with a boolean mask
+    (`x[mask]`, `x[~mask]`, also through a helper called on them).  Gathering splits the batch by regime; concatenating the pieces orders the rows by regime,
+    not by their position in the batch - only a store under the same mask (`out[mask] = piece`) puts them back."""
+    masks = set()
+    for n in ast.walk(fnode):
+        if isinstance(n, ast.Assign) and len(n.targets) == 1 and isinstance(n.targets[0], ast.Name):
+            core = n.value
+            while isinstance(core, ast.Call) and isinstance(core.func, ast.Attribute) and core.func.attr in ('squeeze', 'unsqueeze', 'view', 'reshape', 'clone', 'bool', 'flatten'):
+                core = core.func.value
+            if isinstance(core, ast.Compare) or (isinstance(core, ast.UnaryOp) and isinstance(core.op, ast.Invert)) or \
+                    (isinstance(core, ast.BinOp) and isinstance(core.op, (ast.BitAnd, ast.BitOr))):
+                masks.add(n.targets[0].id)
+
+    def is_mask(x):
+        return (isinstance(x, ast.Name) and x.id in masks) or (isinstance(x, ast.UnaryOp) and isinstance(x.op, ast.Invert) and is_mask(x.operand)) or \
+            (isinstance(x, ast.BinOp) and isinstance(x.op, (ast.BitAnd, ast.BitOr)) and is_mask(x.left) and is_mask(x.right)) or isinstance(x, ast.Compare)
+
+    def gathers(e):
+        return any(isinstance(x, ast.Subscript) and isinstance(x.ctx, ast.Load) and is_mask(x.slice) for x in ast.walk(e))
+    tainted = set()
+    changed = True
+    while changed:
+        changed = False
+        for n in ast.walk(fnode):
+            pairs = []
+            if isinstance(n, ast.Assign):
+                for t in n.targets:
+                    pairs.append((t, n.value))
+            elif isinstance(n, ast.comprehension):
+                pairs.append((n.target, n.iter))
+            for t, v in pairs:
+                if gathers(v) or any(isinstance(x, ast.Name) and x.id in tainted for x in ast.walk(v)):
+                    # a store UNDER a mask is the legitimate way back: its target is not tainted
+                    for x in ([t] if isinstance(t, ast.Name) else [y for y in ast.walk(t) if isinstance(y, ast.Name) and isinstance(y.ctx, ast.Store)]):
+                        if x.id not in tainted:
+                            tainted.add(x.id)
+                            changed = True
+    out = []
+    for c in ast.walk(fnode):
+        if not (isinstance(c, ast.Call) and (dotted(c.func) or '') in ('torch.cat', 'torch.concat', 'torch.concatenate', 'torch.stack', 'torch.vstack', 'torch.row_stack') and c.args):
+            continue
+        kw = {k.arg: k.value for k in c.keywords}
+        ax = kw.get('dim', c.args[1] if len(c.args) > 1 else None)
+        rowwise = ax is None or (isinstance(ax, ast.Constant) and ax.value == 0)
+        if not rowwise:
+            continue
+        names = sorted({x.id for x in ast.walk(c.args[0]) if isinstance(x, ast.Name) and x.id in tainted})
+        if names or gathers(c.args[0]):
+            out.append((c, names))
+    return out
+
+
+@guarded
+def rule_regroup(repo, rid, modules, floor=20):
+    res = RuleResult(rid, 'batch transparency across regimes: what was gathered from the batch with a boolean mask (per-regime sub-batches) returns through a store under '
+                     'the same mask, never through a row-wise concatenation of the pieces (which orders the rows by regime, not by batch position)', floor=floor)
+    for m in modules:
+        for f in repo.module(m).functions.values():
+            hz = regrouped_rows(f.node)
+            res.inst({'function': f.fq, 'row-wise concatenations of gathered pieces': [src(c)[:50] for c, _ in hz]}, f.fq)
+            for c, names in hz:
+                res.add(Finding(rid, f, '`%s` concatenates pieces gathered by a mask (%s) along the batch axis: the rows come out grouped by regime; for a batch that '
+                                'interleaves the regimes every item gets the coefficients of another item' % (src(c)[:60], ', '.join(names) or 'inline gather'), node=c,
+                                construct='row-wise concatenation of gathered pieces'))
+    fx = ast.parse('def f(t, s):\n    big = s.abs() > 1\n    a = g(t[~big])\n    b = h(t[big], s[big])\n    A = torch.cat([a, b]).view_as(t)\n'
+                   '    C = torch.zeros_like(t)\n    C[big] = b\n    D = torch.cat([t[big], s[big]], -1)\n    return A, C, D\n').body[0]
+    if len(regrouped_rows(fx)) != 1:
+        raise AnalysisError('%s: fixtures no longer classified (%d)' % (rid, len(regrouped_rows(fx))))
+    return res
